@@ -34,6 +34,8 @@ pub enum Item {
 	Start,
 	/// normal: stop
 	Stop,
+	/// normal-priority wait-for-end: `control(Control::NextEnding)` (what `to_wait()` sends at high priority)
+	RawWait,
 }
 
 #[derive(Clone, Debug, Serialize, Deserialize)]
@@ -106,6 +108,7 @@ fn build(c: &C10Case) -> Built {
 			Item::DeleteNow => Op::DeleteNow,
 			Item::Start => Op::Start,
 			Item::Stop => Op::Stop,
+			Item::RawWait => Op::RawNextEnding,
 		};
 		steps.push(Step { gap, op, waiters: 1 });
 		item_steps.push(steps.len() - 1);
@@ -203,6 +206,31 @@ pub fn run(c: &C10Case) -> Outcome {
 		}
 	}
 
+	// a wait-for-end sent through control() is a normal-priority control: it sees the job as the normal
+	// controls sent before it left it (gated mode, nothing deleted, the process never exits by itself)
+	if c.mode == 0 && del_pos.is_none() && !c.exit_in_gate {
+		let mut running = c.running;
+		for (k, it) in c.items.iter().enumerate() {
+			match it {
+				Item::Stop => running = false,
+				Item::Start => running = true,
+				Item::RawWait => {
+					let later_stop = c.items[k + 1..].iter().any(|i| *i == Item::Stop);
+					let expected = if !running || later_stop { Some(b.release) } else { None };
+					let w = trace.steps[b.item_steps[k]].waiters[0];
+					o.label("raw-wait-for-end");
+					if w != expected {
+						o.fail(
+							"raw-wait-not-in-send-order",
+							format!("control(NextEnding) (item {k}) resolved at {w:?}, expected {expected:?}: it is a normal-priority control and must see the job state left by the normal controls sent before it{}", dump()),
+						);
+						return o;
+					}
+				}
+				_ => {}
+			}
+		}
+	}
 	match c.mode {
 		0 => {
 			// all controls were pending when the task looked at its queues afresh
@@ -300,6 +328,9 @@ fn strategy() -> BoxedStrategy<C10Case> {
 			ins(&mut v, Item::Start, b2, 0);
 		}
 		ins(&mut v, Item::ToWait, c2, 0);
+		if (a ^ b2) % 2 == 0 {
+			ins(&mut v, Item::RawWait, a.rotate_left(7) ^ c2, 0);
+		}
 		(v, with_stop)
 	});
 	prop_oneof![
